@@ -68,10 +68,15 @@ extern "C" __attribute__((noinline)) void h_realsp() {
   W = &w;
   AltBlockTree& t = *w.alt;
   mineVbk(w, 1); mineVbk(w, 2); mineVbk(w, 2); mineVbk(w, 3);   // VBK 2; X: 3, 5 (on 3); Y: 4
+  bool longY = verif_cbool();                                    // Y gets a second block (6 on 4) and X a third (7 on 5): the VTB then sits in a MID-fork block of the non-active fork
+  if (longY) { mineVbk(w, 4); mineVbk(w, 5); }
+  const uint8_t xTip = longY ? 7 : 5, yTip = longY ? 6 : 4;
   mineBtc(w, 1);
   addAltHeader(w, 2, 1); addAltHeader(w, 3, 2); addAltHeader(w, 4, 3); addAltHeader(w, 5, 2); addAltHeader(w, 6, 5);
   bool xFirst = verif_cbool();
-  PopData p2; p2.context = xFirst ? std::vector<VbkBlock>{w.vbkById[2], w.vbkById[3], w.vbkById[5], w.vbkById[4]} : std::vector<VbkBlock>{w.vbkById[2], w.vbkById[4], w.vbkById[3], w.vbkById[5]};
+  PopData p2;
+  if (xFirst) { p2.context = {w.vbkById[2], w.vbkById[3], w.vbkById[5]}; if (longY) p2.context.push_back(w.vbkById[7]); p2.context.push_back(w.vbkById[4]); if (longY) p2.context.push_back(w.vbkById[6]); }
+  else { p2.context = {w.vbkById[2], w.vbkById[4]}; if (longY) p2.context.push_back(w.vbkById[6]); p2.context.push_back(w.vbkById[3]); p2.context.push_back(w.vbkById[5]); if (longY) p2.context.push_back(w.vbkById[7]); }
   PopData none;
   t.acceptBlock(altHash(2), p2); t.acceptBlock(altHash(3), none); t.acceptBlock(altHash(4), none);
   uint32_t where = verif_choice(5, 6);
@@ -80,14 +85,16 @@ extern "C" __attribute__((noinline)) void h_realsp() {
   t.acceptBlock(altHash(5), b5); t.acceptBlock(altHash(6), b6);
   ValidationState s0;
   verif_check(t.setState(altHash(4), s0), 1);
-  verif_check(t.vbk().getBestChain().tip()->getHash().data()[23] == 5, 2);     // absent POP, the heavier branch X is best
+  verif_check(t.vbk().getBestChain().tip()->getHash().data()[23] == xTip, 2);  // absent POP, the heavier branch X is best
   uint64_t d0 = digest();
   ValidationState s1;
   verif_check(t.setState(altHash(6), s1), 3);
-  if (t.vbk().getBestChain().tip()->getHash().data()[23] == 4) verif_cover(1);  // the VTB really flipped VBK fork resolution to Y
+  uint8_t nowTip = t.vbk().getBestChain().tip()->getHash().data()[23];
+  verif_check(nowTip == xTip || nowTip == yTip, 7);                            // the VBK best chain always ends in a leaf of the winning fork, never in a mid-fork block
+  if (nowTip == yTip) { verif_cover(1); if (longY) verif_cover(3); }           // the VTB really flipped VBK fork resolution to Y
   ValidationState s2;
   verif_check(t.setState(altHash(4), s2), 4);
-  verif_check(t.vbk().getBestChain().tip()->getHash().data()[23] == 5, 5);     // back on A: the SP best chain depends only on the active chain
+  verif_check(t.vbk().getBestChain().tip()->getHash().data()[23] == xTip, 5);  // back on A: the SP best chain depends only on the active chain
   verif_check(digest() == d0, 6);
   verif_cover(2);
 }
